@@ -28,12 +28,15 @@ def post(ck, recs):
         if len(ck.violations) >= 3:
             break
         key = "panic" if r["o"].get("class") == "panic" else None
-        small = shrink.shrink(r["w"], r["tab"], r["reorder"], r["src"], "panic") if key else r["src"]
+        # a case that killed or hung the harness process is reported as it is: every shrinking step would wait for the
+        # same death again
+        died = key and unhex(r["o"].get("panic", "-")).startswith("process died")
+        small = shrink.shrink(r["w"], r["tab"], r["reorder"], r["src"], "panic") if key and not died else r["src"]
         if small in seen:
             continue
         seen.add(small)
         ck.violation("counterexample", {
-            "what": "format_content panicked" if key else "refusal does not coincide with syntax errors, or format_with_width changed a refused input",
+            "what": ("format_content did not return (the process aborted or hung)" if died else "format_content panicked") if key else "refusal does not coincide with syntax errors, or format_with_width changed a refused input",
             "input": {"width": r["w"], "tab": r["tab"], "reorder": r["reorder"], "source": small},
             "panic_message": unhex(r["o"].get("panic", "-")) if r["o"].get("panic") else None,
             "reproduce": "echo '%d %d %d %s' | build/target/debug/tyv oracle" % (r["w"], r["tab"], r["reorder"], hexs(small))})
